@@ -90,7 +90,17 @@ def generate(seed: int, tier: str = "quick") -> dict:
         else:
             _gen_v2(rp, rf, mw, nb, rows, program, faults)
     program.sort(key=lambda o: (o["bar"], PHASE_ORDER.index(o["phase"])))
-    return {"property": ID, "seed": seed, "world": world, "program": program, "faults": faults}
+    sc = {"property": ID, "seed": seed, "world": world, "program": program, "faults": faults}
+    rd = RNG.sub(seed, "direct_drive")
+    if interval == "1min" and rd.random() < 0.08:
+        # the market driven without Actuator.run(): every bar's status carries its data row; in half of these runs the caller
+        # stamps the statuses with its own clock, a few seconds off the index of the data frame
+        sc["opts"] = {"drive": "direct"}
+        if rd.random() < 0.5 and mode == "v1":  # (the GM market always looks its own row up by the status's timestamp)
+            sc["opts"]["direct_stamp_offset_s"] = rd.choice([7, 30])
+        sc["program"] = [o for o in program if o["phase"] in ("initialize", "before_bar", "on_bar", "after_bar")]
+        faults.append({"kind": "market_driven_without_the_actuator"})
+    return sc
 
 
 def _slot(rp, nb):
